@@ -84,8 +84,10 @@ def delta(e, g):
         ("invalid-utf8-dropped", lambda: e.decode("utf-8", "ignore").encode("utf-8")),
         ("edge-spaces-trimmed", lambda: e.strip(b" ")),
         ("edge-whitespace-trimmed", lambda: _ustrip(e)),
+        ("leading-newlines-dropped", lambda: e.lstrip(b"\r\n") if e[:1] in (b"\r", b"\n") else None),
         ("bom-stripped", lambda: e[3:] if e.startswith(C.BOM) else None),
         ("pipe-escape-not-undone", lambda: e.replace(b"|", b"\\|")),
+        ("pipe-escape-consumed", lambda: e.replace(b"\\|", b"|") if b"\\|" in e else None),
         ("quotes-kept", lambda: b'"' + e.replace(b'"', b'""') + b'"'),
         ("outer-quotes-stripped", lambda: e[1:-1] if len(e) >= 2 and e[:1] == b'"' and e[-1:] == b'"' else None),
         ("empty->dash", lambda: b"-" if e == b"" else None),
@@ -176,12 +178,35 @@ def mlr_json_to_records(stdout):
     return [C.record_from_jobj(o) for o in objs]
 
 
+def err_class(r):
+    """First diagnostic line of a failed process with every number replaced by N (so that a known failure can be pinned on
+    the message and a crash, a different diagnostic or a silent failure gets a different signature)."""
+    if r.crashed():
+        m = re.search(r"(panic: [^\n]*|fatal error: [^\n]*)", r.err)
+        return re.sub(r"\d+", "N", (m.group(1) if m else "crash")[:120])
+    lines = [ln for ln in r.err.splitlines() if ln.strip()]
+    if not lines:
+        return "(no diagnostic)"
+    return re.sub(r"\d+", "N", lines[0][:120])
+
+
+def proc_delta(r):
+    if r.verdict != "exited":
+        return "hang:" + str(r.verdict)
+    if r.rc is None or r.signal:
+        return "signal=%s" % r.signal
+    return "rc=%s" % r.rc
+
+
 def _fail(res, v, kind, r, what, detail, cls=""):
-    sig = {"kind": kind, "format": v.fmt, "variant": v.name, "where": "process", "delta": "rc=%s" % r.rc, "class": cls}
+    """A process that did not exit 0 on in-domain input. `cls` = classes of the 1-minimal set of cells the failure needs
+    (see culprits()), never a property of the whole record list."""
+    sig = {"kind": kind, "format": v.fmt, "variant": v.name, "where": "process", "delta": proc_delta(r), "class": cls,
+           "err": err_class(r)}
     if res.get("trigger"):
         sig["trigger"] = res["trigger"]
     add_violation(res, sig,
-                  f"{v.name}: {what}: rc={r.rc} signal={r.signal} verdict={r.verdict} stderr={r.err[:300]!r}",
+                  f"{v.name}: {what}: rc={r.rc} signal={r.signal} verdict={r.verdict} needs cells of class [{cls}] stderr={r.err[:300]!r}",
                   dict(detail, stderr=r.err[:2000]))
 
 
@@ -190,9 +215,86 @@ def _proc_ok(res, v, kind, r, what, detail, cls=""):
         res["inconc"] += 1
         return False
     if not r.ok:
-        _fail(res, v, kind, r, what, detail, cls)
+        _fail(res, v, kind, r, what, detail, cls() if callable(cls) else cls)
         return False
     return True
+
+
+def same_fail(r, r0):
+    return r.verdict != "slow" and not r.ok and r.rc == r0.rc and r.signal == r0.signal and r.verdict == r0.verdict
+
+
+# ------------------------------------------------------------------------------------------
+# witness reduction: which cells does a whole-input failure (process failure, unparseable text, lost record) NEED?
+# The signature of such a failure carries the classes of a 1-minimal set of cells, so that a known-finding matcher is
+# evaluated on the witness and not on whatever else the generator happened to put into the same record list.
+
+_PLAIN_CELL = re.compile(rb"[A-Za-z0-9]+")
+
+
+def cell_classes(c):
+    cs = F.classes_of(c)
+    if not cs and not _PLAIN_CELL.fullmatch(c):
+        cs = {"punct"}
+    return cs
+
+
+def plainify(recs, targets):
+    """Replace every cell in `targets` (set of (kind, bytes)) by a plain stand-in: keys consistently over the list."""
+    if not targets:
+        return recs
+    used = {k for r in recs for k, _ in r}
+    kmap = {}
+    for kind, c in sorted(targets):
+        if kind == "key":
+            i = len(kmap)
+            nk = b"zk%d" % i
+            while nk in used:
+                i += 1
+                nk = b"zk%dq" % i
+            used.add(nk)
+            kmap[c] = nk
+    vals = {c for kind, c in targets if kind == "val"}
+    return [[(kmap.get(k, k), (b"zv" if val in vals else val)) for k, val in r] for r in recs]
+
+
+def culprits(recs, fails, positional=False, budget=48):
+    """-> (class string, set of (kind, cell)): a 1-minimal set of non-plain cells without which `fails` no longer holds.
+    ('unreproducible', set()) when fails(recs) itself is false (flaky)."""
+    if not fails(recs):
+        return "unreproducible", set()
+    items = list(recs)
+    while len(items) > 1 and budget > 0:
+        h = len(items) // 2
+        budget -= 1
+        if fails(items[:h]):
+            items = items[:h]
+            continue
+        budget -= 1
+        if fails(items[h:]):
+            items = items[h:]
+            continue
+        break
+    cells = []
+    for r in items:
+        for k, val in r:
+            for kind, c in (("key", k), ("val", val)):
+                if kind == "key" and positional:
+                    continue
+                if cell_classes(c) and (kind, c) not in cells:
+                    cells.append((kind, c))
+    neutral, needed = set(), []
+    for kc in cells:
+        if budget <= 0:
+            needed.append(kc)
+            continue
+        budget -= 1
+        if fails(plainify(items, neutral | {kc})):
+            neutral.add(kc)
+        else:
+            needed.append(kc)
+    cls = "+".join(sorted({kind + ":" + c for kind, cell in needed for c in cell_classes(cell)})) or "plain"
+    return cls, set(needed)
 
 
 def rec_classes(recs):
@@ -225,7 +327,6 @@ def flat_case(case):
     hetero = len({tuple(k for k, _ in r) for r in recs}) > 1
     cls = rec_classes(recs)
     res = case_result(_h("rt", v.name, recs), nontrivial=bool(cls) or hetero, evals=0)
-    bytes_mode = any(not F.is_utf8(k) or not F.is_utf8(val) for r in recs for k, val in r)
     if v.irs and any(v.irs[-1:] in k or v.irs[-1:] in val for r in recs for k, val in r):
         res["trigger"] = "irs-last-byte-in-cell"
     bump(res, "variant:" + v.name)
@@ -234,146 +335,259 @@ def flat_case(case):
         bump(res, "class:" + v.fmt + ":" + c)
     if case.get("focus"):
         bump(res, "focus:" + v.fmt + ":" + case["focus"])
-    base_detail = {"variant": v.name, "records_head": _jsonable_recs(recs), "n_records": len(recs)}
+    if len(recs) >= 12 or max(len(r) for r in recs) >= 12:
+        bump(res, "cases_with_12+_records_or_fields")
+    _flat_check(res, v, recs, case, rng, 0)
+    return res
+
+
+def _raises(f, *a):
+    try:
+        f(*a)
+        return False
+    except C.CodecError:
+        return True
+
+
+def _flat_check(res, v, recs, case, rng, depth):
+    """All comparisons of the rt monitor on one record list. A whole-input failure (process failure, unparseable text,
+    lost record) is reported with the classes of the cells it needs (culprits) and the comparisons are then repeated
+    on the list with exactly those cells made plain, so that one known defect does not hide the rest of the list."""
+    X = getattr(F, "EXTRA_CODECS", {}).get(v.name, {})
+    pyread = v.pyread or X.get("pyread")
+    pywrite = v.pywrite or X.get("pywrite")
+    styles = v.styles or X.get("styles", [])
+    bytes_mode = any(not F.is_utf8(k) or not F.is_utf8(val) for r in recs for k, val in r)
+    batch = list(case.get("batch") or [])
+    base_detail = {"variant": v.name, "records_head": _jsonable_recs(recs), "n_records": len(recs), "depth": depth}
     write_argv = v.oflags + ["--ijson", "cat"]
-    read_argv = v.iflags + READBACK + ["cat"]
-    both_argv = v.iflags + v.oflags + ["cat"]
+    read_argv = batch + v.iflags + READBACK + ["cat"]
+    both_argv = batch + v.iflags + v.oflags + ["cat"]
+    state = {"needed": set()}
+
+    def write(rs):
+        if not bytes_mode:
+            jt = C.write_json([C.jobj_from_record(r_) for r_ in rs])
+            return R.mlr(write_argv, stdin=jt), write_argv, jt
+        t0 = pywrite(rs)
+        return R.mlr(both_argv, stdin=t0), both_argv, t0
+
+    def shrunk(fails):
+        def counted(rs):
+            bump(res, "witness_reduction_runs")
+            return bool(rs) and fails(rs)
+        c, needed = culprits(recs, counted, v.positional)
+        state["needed"] |= needed
+        return c
+
+    def go_on():
+        if state["needed"] and depth < 2:
+            bump(res, "continued_without_culprit_cells")
+            _flat_check(res, v, plainify(recs, state["needed"]), case, rng, depth + 1)
+
+    def read_back(text):
+        """-> records, or None when the process fails / the carrier is unparseable"""
+        rr = R.mlr(read_argv, stdin=text)
+        if not rr.ok:
+            return None
+        try:
+            return mlr_json_to_records(rr.stdout)
+        except C.CodecError:
+            return None
+
+    def rt_structure(rs, d):
+        w = write(rs)[0]
+        if not w.ok:
+            return False
+        g = read_back(w.stdout)
+        return g is not None and any(x["where"] == "structure" and x["delta"] == d for x in diff_records(rs, g))
+
+    def idem(Tin):
+        """-> (status, text fed, text got, Result); status ok | mismatch | fail | slow"""
+        r_ = R.mlr(both_argv, stdin=Tin)
+        if r_.verdict == "slow":
+            return "slow", Tin, None, r_
+        if not r_.ok:
+            return "fail", Tin, None, r_
+        if r_.stdout == Tin:
+            return "ok", Tin, r_.stdout, r_
+        if v.idem2:
+            tainted = False
+            if pyread is not None:
+                try:
+                    tainted = pyread(Tin) != pyread(r_.stdout)   # the first pass already changed cells: reported as usual
+                except C.CodecError:
+                    tainted = True
+            if not tainted:
+                # layout depends on inferred types (numeric right-alignment) and T was written from JSON
+                # strings: the fixed point must be reached after one pass over format-F input
+                T2 = r_.stdout
+                r2 = R.mlr(both_argv, stdin=T2)
+                if r2.verdict == "slow":
+                    return "slow", T2, None, r2
+                if not r2.ok:
+                    return "fail", T2, None, r2
+                return ("ok" if r2.stdout == T2 else "mismatch"), T2, r2.stdout, r2
+        return "mismatch", Tin, r_.stdout, r_
 
     # ---- inject
-    if not bytes_mode:
-        jtext = C.write_json([C.jobj_from_record(r) for r in recs])
-        r = R.mlr(write_argv, stdin=jtext)
-        res["evals"] += 1
-        det = dict(base_detail, argv=write_argv, stdin=jtext)
-        if not _proc_ok(res, v, "write-fail", r, "writer failed on in-domain records", det, "+".join(sorted(cls))):
-            return res
-        T = r.stdout
-    else:
-        if v.pywrite is None:
-            res["skipped"] += 1
-            return res
+    if bytes_mode and pywrite is None:
+        res["skipped"] += 1
+        return
+    if bytes_mode:
         bump(res, "bytes_mode_cases")
-        T0 = v.pywrite(recs)
-        r = R.mlr(both_argv, stdin=T0)
-        res["evals"] += 1
-        det = dict(base_detail, argv=both_argv, stdin=T0)
-        if not _proc_ok(res, v, "write-fail", r, "F->F pass failed on byte-exact in-domain text", det, "+".join(sorted(cls))):
-            return res
-        T = r.stdout
-    res["sample"] = {"monitor": "rt", "variant": v.name, "argv_write": write_argv, "argv_read": read_argv,
-                     "records_head": _jsonable_recs(recs, 2), "text_head": _short(T, 300)}
+    r, argv0, stdin0 = write(recs)
+    res["evals"] += 1
+    det = dict(base_detail, argv=argv0, stdin=stdin0)
+    if r.verdict == "slow":
+        res["inconc"] += 1
+        return
+    if not r.ok:
+        r0 = r
+        c = shrunk(lambda rs: same_fail(write(rs)[0], r0))
+        _fail(res, v, "write-fail", r, "F->F pass failed on byte-exact in-domain text" if bytes_mode else "writer failed on in-domain records", det, c)
+        go_on()
+        return
+    T = r.stdout
+    if depth == 0:
+        res["sample"] = {"monitor": "rt", "variant": v.name, "argv_write": write_argv, "argv_read": read_argv,
+                         "records_head": _jsonable_recs(recs, 2), "text_head": _short(T, 300)}
 
     # ---- Miller reads its own output
     if not bytes_mode:
         r = R.mlr(read_argv, stdin=T)
         res["evals"] += 1
         det = dict(base_detail, argv=read_argv, stdin=T, written_by=write_argv)
-        if _proc_ok(res, v, "read-fail", r, "reader failed on Miller's own output", det, "+".join(sorted(cls))):
+        if r.verdict == "slow":
+            res["inconc"] += 1
+        elif not r.ok:
+            r0 = r
+            c = shrunk(lambda rs: (lambda w: w.ok and same_fail(R.mlr(read_argv, stdin=w.stdout), r0))(write(rs)[0]))
+            _fail(res, v, "read-fail", r, "reader failed on Miller's own output", det, c)
+            go_on()
+            return
+        else:
             try:
                 got = mlr_json_to_records(r.stdout)
             except C.CodecError as e:
-                add_violation(res, {"kind": "carrier", "format": v.fmt, "variant": v.name, "where": "json-output", "delta": "unparseable",
-                                    "class": "+".join(sorted(cls))},
+                c = shrunk(lambda rs: (lambda w: w.ok and (lambda rr: rr.ok and _raises(mlr_json_to_records, rr.stdout))(R.mlr(read_argv, stdin=w.stdout)))(write(rs)[0]))
+                add_violation(res, {"kind": "carrier", "format": v.fmt, "variant": v.name, "where": "json-output", "delta": "unparseable", "class": c},
                               f"{v.name}: --ojson output of the read-back is not strict JSON: {e}", dict(det, stdout=_short(r.stdout, 2000)))
                 got = None
             if got is not None:
                 diffs = diff_records(recs, got)
                 if diffs:
+                    structural = False
+                    for d in diffs:
+                        if d["where"] == "structure":
+                            structural = True
+                            d["cls"] = shrunk(lambda rs, dd=d["delta"]: rt_structure(rs, dd))
                     report_diffs(res, v, "roundtrip", diffs, "read(write(R)) != R", dict(det, text=_short(T, 4000)))
+                    if structural:
+                        go_on()
+                        return
                 else:
                     bump(res, "roundtrip_held")
 
     # ---- idempotence of mlr --F cat on its own output
-    T_first = T
-    r = R.mlr(both_argv, stdin=T)
+    status, Tin, Tout, r = idem(T)
     res["evals"] += 1
-    det = dict(base_detail, argv=both_argv, stdin=T)
-    if _proc_ok(res, v, "idem-fail", r, "F->F pass failed on Miller's own output", det, "+".join(sorted(cls))):
-        T_first = T
-        tainted = False
-        if v.idem2 and r.stdout != T and v.pyread is not None:
+    det = dict(base_detail, argv=both_argv, stdin=Tin)
+    if status == "slow":
+        res["inconc"] += 1
+    elif status == "fail":
+        r0 = r
+        c = shrunk(lambda rs: (lambda w: w.ok and (lambda x: x[0] == "fail" and same_fail(x[3], r0))(idem(w.stdout)))(write(rs)[0]))
+        _fail(res, v, "idem-fail", r, "F->F pass failed on Miller's own output", det, c)
+        go_on()
+        return
+    elif status == "ok":
+        bump(res, "idempotence_held")
+    elif v.fmt == "markdown" and re.search(rb" :?-+: \|", Tin):
+        # the writer's own right-alignment rule ('---:') is not recognised by the reader: everything after it shifts
+        report_diffs(res, v, "idempotence", [{"where": "structure", "delta": "rule-line-read-as-record", "cls": "", "exp": _short(Tin, 300),
+                                              "got": _short(Tout, 300), "at": None}],
+                     "mlr --md --right-align-numeric cat is not idempotent on its own output", det)
+    else:
+        diffs = None
+        if pyread is not None:
             try:
-                tainted = v.pyread(T) != v.pyread(r.stdout)   # the first pass already changed cells: reported below as usual
+                diffs = diff_records(pyread(Tin), pyread(Tout))
             except C.CodecError:
-                tainted = True
-        if v.idem2 and r.stdout != T and not tainted:
-            # layout depends on inferred types (numeric right-alignment) and T was written from JSON
-            # strings: the fixed point must be reached after one pass over format-F input
-            T = r.stdout
-            r = R.mlr(both_argv, stdin=T)
-            res["evals"] += 1
-            det = dict(base_detail, argv=both_argv, stdin=T)
-            if not _proc_ok(res, v, "idem-fail", r, "F->F pass failed on Miller's own output", det, "+".join(sorted(cls))):
-                return res
-        if r.stdout != T and v.fmt == "markdown" and re.search(rb" :?-+: \|", T):
-            # the writer's own right-alignment rule ('---:') is not recognised by the reader: everything after it shifts
-            report_diffs(res, v, "idempotence", [{"where": "structure", "delta": "rule-line-read-as-record", "cls": "", "exp": _short(T, 300),
-                                                  "got": _short(r.stdout, 300), "at": None}],
-                         "mlr --md --right-align-numeric cat is not idempotent on its own output", det)
-        elif r.stdout != T:
-            diffs = None
-            if v.pyread is not None:
-                try:
-                    diffs = diff_records(v.pyread(T), v.pyread(r.stdout))
-                except C.CodecError:
-                    diffs = None
-            if diffs is not None and not diffs:
-                diffs = [{"where": "text", "delta": "same-cells-different-text", "cls": "+".join(sorted({c.split(":")[1] for c in cls})),
-                          "exp": _short(T, 300), "got": _short(r.stdout, 300), "at": None}]
-            if not diffs:
-                diffs = [{"where": "text", "delta": text_delta(T, r.stdout), "cls": "+".join(sorted({c.split(":")[1] for c in cls})),
-                          "exp": _short(T, 300), "got": _short(r.stdout, 300), "at": None}]
-            report_diffs(res, v, "idempotence", diffs, "mlr --F cat is not idempotent on its own output", det)
-        else:
-            bump(res, "idempotence_held")
+                diffs = None
+        if not diffs or any(d["where"] == "structure" for d in diffs):
+            c = shrunk(lambda rs: (lambda w: w.ok and idem(w.stdout)[0] == "mismatch")(write(rs)[0]))
+            if diffs:
+                for d in diffs:
+                    if d["where"] == "structure":
+                        d["cls"] = c
+            elif diffs is not None:
+                diffs = [{"where": "text", "delta": "same-cells-different-text", "cls": c, "exp": _short(Tin, 300), "got": _short(Tout, 300), "at": None}]
+            else:
+                diffs = [{"where": "text", "delta": text_delta(Tin, Tout), "cls": c, "exp": _short(Tin, 300), "got": _short(Tout, 300), "at": None}]
+        report_diffs(res, v, "idempotence", diffs, "mlr --F cat is not idempotent on its own output", det)
 
     # ---- direction 1: independent reader on Miller's text
-    if v.pyread is not None:
+    if pyread is not None:
         res["evals"] += 1
-        T = T_first
         det = dict(base_detail, argv=write_argv, text=_short(T, 4000))
         try:
-            got = v.pyread(T)
+            got = pyread(T)
         except C.CodecError as e:
-            add_violation(res, {"kind": "std-read", "format": v.fmt, "variant": v.name, "where": "text", "delta": "not-well-formed",
-                                "class": "+".join(sorted({c.split(":")[1] for c in cls}))},
-                          f"{v.name}: independent reader rejects Miller's output: {e}", det)
+            c = shrunk(lambda rs: (lambda w: w.ok and _raises(pyread, w.stdout))(write(rs)[0]))
+            add_violation(res, {"kind": "std-read", "format": v.fmt, "variant": v.name, "where": "text", "delta": "not-well-formed", "class": c},
+                          f"{v.name}: independent reader rejects Miller's output (needs cells of class [{c}]): {e}", det)
             got = None
         if got is not None:
             diffs = diff_records(recs, got)
             if diffs:
+                for d in diffs:
+                    if d["where"] == "structure":
+                        d["cls"] = shrunk(lambda rs, dd=d["delta"]: (lambda w: w.ok and not _raises(pyread, w.stdout) and any(
+                            x["where"] == "structure" and x["delta"] == dd for x in diff_records(rs, pyread(w.stdout))))(write(rs)[0]))
                 report_diffs(res, v, "std-read", diffs, "independent reader recovers different cells from Miller's output", det)
             else:
                 bump(res, "std_read_held")
 
     # ---- direction 2: independent writer, every legal style -> Miller
-    styles = v.styles
     if styles and not bytes_mode:
         k = case.get("nstyles", len(styles))
         if k < len(styles):
             start = rng.randrange(len(styles))
             styles = [styles[(start + i) % len(styles)] for i in range(k)]
         for sname, sfn in styles:
-            text = sfn(recs, rng)
+            srng = random.Random(rng.random())
+            text = sfn(recs, random.Random(srng.random()))
             r = R.mlr(read_argv, stdin=text)
             res["evals"] += 1
             bump(res, "style:" + v.fmt + ":" + sname)
             det = dict(base_detail, argv=read_argv, stdin=text, style=sname)
-            if not _proc_ok(res, v, "std-write-fail", r, f"reader failed on standard text (style {sname})", det, "+".join(sorted(cls))):
+            if r.verdict == "slow":
+                res["inconc"] += 1
+                continue
+            if not r.ok:
+                r0 = r
+                c = shrunk(lambda rs: same_fail(R.mlr(read_argv, stdin=sfn(rs, random.Random(0))), r0))
+                _fail(res, v, "std-write-fail", r, f"reader failed on standard text (style {sname})", det, c)
                 continue
             try:
                 got = mlr_json_to_records(r.stdout)
             except C.CodecError as e:
                 add_violation(res, {"kind": "carrier", "format": v.fmt, "variant": v.name, "where": "json-output", "delta": "unparseable",
-                                    "class": "+".join(sorted(cls))}, f"{v.name}: --ojson output not strict JSON: {e}", det)
+                                    "class": ""}, f"{v.name}: --ojson output not strict JSON: {e}", det)
                 continue
             diffs = diff_records(recs, got)
             if diffs:
+                for d in diffs:
+                    if d["where"] == "structure":
+                        d["cls"] = shrunk(lambda rs, dd=d["delta"]: (lambda g: g is not None and any(
+                            x["where"] == "structure" and x["delta"] == dd for x in diff_records(rs, g)))(read_back(sfn(rs, random.Random(0)))))
                 report_diffs(res, v, "std-write", diffs, f"Miller reads different cells from standard text (style {sname})", det,
                              {"style": sname})
             else:
                 bump(res, "std_write_held")
-    return res
+        if state["needed"] and depth == 0:
+            go_on()
 
 
 # ==========================================================================================
@@ -395,7 +609,34 @@ STR_SPECIAL = ["", " ", "123", "-4.5", "0x1F", "1e5", "true", "false", "null", "
 
 
 def num_class(tok):
-    return NUM_EDGE.get(tok, "number")
+    """Class of a JSON number token: the edges at which Miller's number model is documented/known to differ."""
+    if tok in NUM_EDGE:
+        return NUM_EDGE[tok]
+    if re.fullmatch(r"-?\d+", tok):
+        return "number" if -2 ** 63 <= int(tok) < 2 ** 63 else "int-beyond-int64"
+    try:
+        f = float(tok)
+    except ValueError:
+        return "number"
+    if f in (float("inf"), float("-inf")):
+        return "float-beyond-double"
+    if f == 0 and re.search(r"[1-9]", re.split(r"[eE]", tok)[0]):
+        return "float-underflow"
+    if f == 0 and tok.startswith("-"):
+        return "minus-zero"
+    return "number"
+
+
+def rand_json_number(rng):
+    """A random token of the RFC-8259 number grammar: -?(0|[1-9][0-9]*)(.[0-9]+)?([eE][+-]?[0-9]+)?"""
+    t = "-" if rng.random() < 0.3 else ""
+    nd = rng.choice([1, 1, 2, 3, 6, 15, 16, 17, 18, 19, 20, 25])
+    t += "0" if rng.random() < 0.25 else (rng.choice("123456789") + "".join(rng.choice("0123456789") for _ in range(nd - 1)))
+    if rng.random() < 0.55:
+        t += "." + "".join(rng.choice("0123456789") for _ in range(rng.choice([1, 1, 2, 3, 6, 12, 17, 20]))) + rng.choice(["", "", "0", "00"])
+    if rng.random() < 0.4:
+        t += rng.choice("eE") + rng.choice(["", "+", "-"]) + rng.choice(["0", "1", "2", "5", "05", "10", "22", "100", "300", "307", "308", "309", "323", "324", "325", "400"])
+    return t
 
 
 def gen_json_value(rng, depth, strings, allow_null=True, edge_p=0.06):
@@ -423,7 +664,7 @@ def gen_json_value(rng, depth, strings, allow_null=True, edge_p=0.06):
     return rng.choice(strings)
 
 
-def gen_json_records(rng, v, focus=None):
+def gen_json_records(rng, v, focus=None, big=None):
     strings = []
     for name, b, cls in F.PIECES:
         if cls in ("invalid-utf8", "long"):
@@ -446,6 +687,20 @@ def gen_json_records(rng, v, focus=None):
     if focus is not None and recs and recs[0]:
         k0 = recs[0][0][0]
         recs[0][0] = (k0, focus)
+    # representation thresholds the table above never reaches (strings/keys of 64 KiB as in the flat formats, deep nesting,
+    # number tokens drawn from the whole RFC-8259 grammar instead of a fixed list)
+    if big == "long":
+        L = F.PIECE_BY_NAME["long-64k"][0].decode()
+        H = F.PIECE_BY_NAME["long-hostile"][0].decode()
+        recs.insert(rng.randrange(len(recs) + 1), C.JObj([("k1", L), ("K" + L, "v"), ("k3", H), ("k4", [L[:5000], C.JObj([(H[:7000], "x")])])]))
+    elif big == "deep":
+        x = rng.choice(STR_SPECIAL)
+        for d in range(64):
+            x = C.JObj([(rng.choice(["a", "b", "k", rng.choice(STR_SPECIAL)]), x)]) if rng.random() < 0.5 else [x]
+        recs.insert(rng.randrange(len(recs) + 1), C.JObj([("deep", x), ("after", "z")]))
+    elif big == "numbers":
+        recs.insert(rng.randrange(len(recs) + 1), C.JObj([("n%d" % i, C.JNum(rand_json_number(rng))) for i in range(13)] +
+                                                        [("arr", [C.JNum(rand_json_number(rng)) for _ in range(6)])]))
     return recs
 
 
@@ -528,9 +783,9 @@ def jdiff(e, g, path, out, numeric=False, sort_keys=False, limit=8):
         return
     if isinstance(e, C.JNum):
         if isinstance(g, C.JNum):
-            if str(e) == str(g) or (numeric and _num_eq(str(e), str(g))):
+            if str(e) == str(g):
                 return
-            out.append(("number", "token-changed", num_class(str(e)), str(e), str(g), path))
+            out.append(("number", "token-changed-same-value" if _num_eq(str(e), str(g)) else "token-changed", num_class(str(e)), str(e), str(g), path))
         elif isinstance(g, str):
             out.append(("number", "number->string" if g == str(e) else "number->other-string", num_class(str(e)), str(e), g, path))
         else:
@@ -578,131 +833,303 @@ def jclasses(recs):
     return "+".join(sorted(cs))
 
 
+_PLAIN_STR = re.compile(r"[A-Za-z][A-Za-z0-9]*")
+
+
+def leaf_classes(kind, x):
+    """Classes of one JSON leaf (kind key | str | num | other) for signatures."""
+    if kind == "num":
+        cs = {num_class(str(x))}
+        if str(x) in ("-0", "-0.0"):
+            cs.add("minus-zero")
+        return cs
+    if kind == "other":
+        return {"literal:" + repr(x)}
+    b_ = x.encode("utf-8", "surrogatepass")
+    cs = set(F.classes_of(b_)) - {"empty"}
+    if x[:1] in ("\n", "\r"):
+        cs.add("leading-newline")
+    if kind == "key" and x == "<<":
+        cs.add("merge-key")
+    if x == "":
+        cs.add("empty")
+    if not cs and not _PLAIN_STR.fullmatch(x):
+        cs = {"text:" + x[:16]}
+    return {("key:" + c if kind == "key" else c) for c in cs}
+
+
+def jmap(x, fn, path=()):
+    """Rebuild a JSON tree; fn(path, kind, value) -> replacement for every key and scalar leaf. Paths are positional
+    (so that replacing a key does not move anything): (i,) = i-th member's value, (i, 'k') = its key."""
+    if isinstance(x, C.JObj):
+        return C.JObj((fn(path + (i, "k"), "key", k), jmap(y, fn, path + (i,))) for i, (k, y) in enumerate(x))
+    if isinstance(x, list):
+        return [jmap(y, fn, path + (i,)) for i, y in enumerate(x)]
+    if isinstance(x, C.JNum):
+        return fn(path, "num", x)
+    if isinstance(x, str):
+        return fn(path, "str", x)
+    return fn(path, "other", x)
+
+
+def jplainify(recs, targets):
+    """targets: set of (record index, path)."""
+    if not targets:
+        return recs
+
+    def one(ri, r):
+        def fn(path, kind, x):
+            if (ri, path) not in targets:
+                return x
+            if kind == "key":
+                return "zk%d" % path[-2]
+            return C.JNum("1") if kind == "num" else "zs"
+        return jmap(r, fn)
+    return [one(ri, r) for ri, r in enumerate(recs)]
+
+
+def jculprits(recs, fails, budget=60):
+    """As culprits(), for JSON trees: -> (class string, set of (record index, path))."""
+    if not fails(recs):
+        return "unreproducible", set()
+    lo, hi = 0, len(recs)
+    while hi - lo > 1 and budget > 0:
+        h = (lo + hi) // 2
+        budget -= 1
+        if fails(recs[lo:h]):
+            hi = h
+            continue
+        budget -= 1
+        if fails(recs[h:hi]):
+            lo = h
+            continue
+        break
+    items = recs[lo:hi]
+    leaves = []
+    for ri, r in enumerate(items):
+        def fn(path, kind, x, ri=ri):
+            if leaf_classes(kind, x) - {"number"} or (kind == "num" and str(x) != "1"):
+                leaves.append((ri, path, kind, x))
+            return x
+        jmap(r, fn)
+    neutral, needed = set(), []
+    for ri, path, kind, x in leaves:
+        if budget <= 0:
+            needed.append((ri, path, kind, x))
+            continue
+        budget -= 1
+        if fails(jplainify(items, neutral | {(ri, path)})):
+            neutral.add((ri, path))
+        else:
+            needed.append((ri, path, kind, x))
+    cls = "+".join(sorted(set().union(*[leaf_classes(kind, x) for _, _, kind, x in needed]))) if needed else "plain"
+    return cls, {(ri + lo, path) for ri, path, _, _ in needed}
+
+
 def json_case(case):
     v = F.variant_by_name(case["variant"])
     rng = random.Random(case["seed"])
     focus = case.get("focus")
-    recs = gen_json_records(rng, v, focus)
-    res = case_result(_h("json", v.name, repr(recs)), False, evals=0)
+    recs = gen_json_records(rng, v, focus, big=case.get("big"))
+    res = case_result(_h("json", v.name, repr(recs)[:20000], len(repr(recs))), False, evals=0)
     nested = any(isinstance(x, (list,)) for r in recs for _, x in r)
     res["nontrivial"] = bool(recs) and (nested or any(isinstance(x, str) and F.classes_of(x.encode("utf-8", "surrogatepass")) for r in recs for _, x in r))
     bump(res, "variant:" + v.name)
     bump(res, "fmt:" + v.fmt)
-    yaml = v.fmt == "yaml"
-    jc = jclasses(recs)
-    expected = [quoteall(r) for r in recs] if "--jvquoteall" in v.oflags else recs
+    if case.get("big"):
+        bump(res, "json_big:" + case["big"])
     styles = JSON_STYLES
     k = case.get("nstyles", len(styles))
     start = rng.randrange(len(styles))
     styles = [styles[(start + i) % len(styles)] for i in range(min(k, len(styles)))]
+    batch = list(case.get("batch") or [])
     for sname, st in styles:
-        text = C.write_json(recs, st)
         bump(res, "style:json:" + sname)
-        if not yaml:
-            argv = v.iflags + v.oflags + ["cat"]
-            r = R.mlr(argv, stdin=text)
-            res["evals"] += 1
-            det = {"variant": v.name, "argv": argv, "stdin": text, "style": sname}
-            if not _proc_ok(res, v, "json-fail", r, f"JSON pass failed on RFC-8259 text (style {sname})", det, jc):
-                continue
-            out = r.stdout
-            try:
-                got = C.parse_json_records(out)
-                if v.single_doc == "json":
-                    C.read_json_document(out)
-                elif v.single_doc == "jsonl":
-                    C.read_jsonl_document(out)
-                if "--no-jlistwrap" in v.oflags and out.lstrip()[:1] == b"[":
-                    raise C.CodecError("--no-jlistwrap output starts with '['")
-                if ("--no-jvstack" in v.oflags or (v.fmt == "jsonl" and "--jvstack" not in v.oflags)) and recs:
-                    nl = out.count(b"\n")
-                    wrap = 2 if v.single_doc == "json" else 0
-                    if nl != len(recs) + wrap:
-                        raise C.CodecError("single-line layout: %d newlines for %d records" % (nl, len(recs)))
-            except C.CodecError as e:
-                add_violation(res, {"kind": "json-output", "format": v.fmt, "variant": v.name, "where": "text", "delta": "not-well-formed",
-                                    "class": ""}, f"{v.name}: output is not a well-formed {v.single_doc or 'JSON'} document: {e}",
-                              dict(det, stdout=_short(out, 3000)))
-                continue
-            diffs = []
-            if len(got) != len(expected):
-                diffs.append(("structure", "record-count", "", len(expected), len(got), []))
-            else:
-                for i, (e, g) in enumerate(zip(expected, got)):
-                    jdiff(e, g, [i], diffs)
-            for where, d, cls, ex, go, path in diffs:
-                add_violation(res, {"kind": "json-roundtrip", "format": v.fmt, "variant": v.name, "where": where, "delta": d, "class": cls},
-                              f"{v.name}: JSON in (style {sname}) != JSON out at {path}: {where} {d} ({cls or '-'}) expected {ex!r} got {go!r}",
-                              dict(det, path=path, expected=ex, got=go, stdout=_short(out, 3000)))
-            if not diffs:
-                bump(res, "json_roundtrip_held")
-            r2 = R.mlr(argv, stdin=out)
-            res["evals"] += 1
-            if _proc_ok(res, v, "idem-fail", r2, "JSON pass failed on Miller's own output", dict(det, stdin=out)):
-                if r2.stdout != out and not diffs:
-                    add_violation(res, {"kind": "idempotence", "format": v.fmt, "variant": v.name, "where": "text",
-                                        "delta": text_delta(out, r2.stdout), "class": ""},
-                                  f"{v.name}: mlr --json cat is not idempotent on its own output", dict(det, stdin=out, got=_short(r2.stdout, 3000)))
-                elif r2.stdout == out:
-                    bump(res, "idempotence_held")
-        else:
-            wargv = v.oflags + ["--ijson", "cat"]
-            r = R.mlr(wargv, stdin=text)
-            res["evals"] += 1
-            det = {"variant": v.name, "argv": wargv, "stdin": text, "style": sname}
-            if not _proc_ok(res, v, "write-fail", r, "YAML writer failed", det, jc):
-                continue
-            Y = r.stdout
-            rargv = v.iflags + ["--ojson", "cat"]
-            r = R.mlr(rargv, stdin=Y)
-            res["evals"] += 1
-            det = {"variant": v.name, "argv": rargv, "stdin": Y, "written_by": wargv, "json": _short(text, 2000)}
-            if not _proc_ok(res, v, "read-fail", r, "YAML reader failed on Miller's own YAML", det, jc):
-                continue
-            try:
-                got = C.parse_json_records(r.stdout)
-            except C.CodecError as e:
-                add_violation(res, {"kind": "carrier", "format": v.fmt, "variant": v.name, "where": "json-output", "delta": "unparseable", "class": ""},
-                              f"{v.name}: --ojson output not strict JSON: {e}", det)
-                continue
-            diffs = []
-            if len(got) != len(expected):
-                diffs.append(("structure", "record-count", "", len(expected), len(got), []))
-            else:
-                for i, (e, g) in enumerate(zip(expected, got)):
-                    jdiff(e, g, [i], diffs, numeric=True)
-            for where, d, cls, ex, go, path in diffs:
-                add_violation(res, {"kind": "roundtrip", "format": v.fmt, "variant": v.name, "where": where, "delta": d, "class": cls},
-                              f"{v.name}: JSON -> YAML -> JSON differs at {path}: {where} {d} ({cls or '-'}) expected {ex!r} got {go!r}",
-                              dict(det, path=path, expected=ex, got=go))
-            if not diffs:
-                bump(res, "roundtrip_held")
-            bargv = v.iflags + v.oflags + ["cat"]
-            r1 = R.mlr(bargv, stdin=Y)
-            res["evals"] += 1
-            if _proc_ok(res, v, "idem-fail", r1, "YAML pass failed on Miller's own YAML", dict(det, argv=bargv), jc):
-                Y1 = r1.stdout
-                if Y1 != Y:
-                    # the reader sorts keys (reported above as key-order): look for the fixed point one pass later;
-                    # any other round-trip difference already reported above would only be repeated here
-                    only_order = all(d[0] == "key-order" for d in diffs)
-                    if only_order:
-                        Ycmp = Y
-                        if diffs:
-                            r2 = R.mlr(bargv, stdin=Y1)
-                            res["evals"] += 1
-                            Ycmp, Y1 = Y1, r2.stdout
-                        if Ycmp != Y1:
-                            mz = re.sub(rb"(^|[\s\[,])-0(?=[\s\],]|$)", rb"\g<1>0", Ycmp) == Y1
-                            add_violation(res, {"kind": "idempotence", "format": v.fmt, "variant": v.name, "where": "text",
-                                                "delta": "minus-zero->zero" if mz else "other", "class": jc},
-                                          f"{v.name}: mlr --yaml cat is not idempotent on its own output",
-                                          dict(det, argv=bargv, stdin=Ycmp, got=_short(Y1, 3000)))
-                else:
-                    bump(res, "idempotence_held")
+        _json_check(res, v, recs, sname, st, batch, 0)
     if recs:
         res["sample"] = {"monitor": "json", "variant": v.name, "records_head": _short(C.write_json(recs[:1], {"shape": "lines"}), 300)}
     return res
+
+
+def _json_check(res, v, recs, sname, st, batch, depth):
+    """One input style through one JSON-family variant. A whole-input failure is reported with the classes of the leaves
+    it needs (jculprits) and the comparison is repeated with exactly those leaves made plain."""
+    yaml = v.fmt == "yaml"
+    expected = [quoteall(r) for r in recs] if "--jvquoteall" in v.oflags else recs
+    text = C.write_json(recs, st)
+    state = {"needed": set()}
+
+    def shrunk(fails):
+        def counted(rs):
+            bump(res, "witness_reduction_runs")
+            return fails(rs)
+        c, needed = jculprits(recs, counted)
+        state["needed"] |= needed
+        return c
+
+    def go_on():
+        if state["needed"] and depth < 2:
+            bump(res, "continued_without_culprit_cells")
+            _json_check(res, v, jplainify(recs, state["needed"]), sname, st, batch, depth + 1)
+
+    def failing(r, kind, what, det, fails_with):
+        """-> True when the process result is usable"""
+        if r.verdict == "slow":
+            res["inconc"] += 1
+            return False
+        if not r.ok:
+            c = shrunk(lambda rs: fails_with(rs, r))
+            _fail(res, v, kind, r, what, det, c)
+            go_on()
+            return False
+        return True
+
+    if not yaml:
+        argv = batch + v.iflags + v.oflags + ["cat"]
+        r = R.mlr(argv, stdin=text)
+        res["evals"] += 1
+        det = {"variant": v.name, "argv": argv, "stdin": text, "style": sname, "depth": depth}
+        if not failing(r, "json-fail", f"JSON pass failed on RFC-8259 text (style {sname})", det,
+                       lambda rs, r0: same_fail(R.mlr(argv, stdin=C.write_json(rs, st)), r0)):
+            return
+        out = r.stdout
+        try:
+            got = C.parse_json_records(out)
+            if v.single_doc == "json":
+                C.read_json_document(out)
+            elif v.single_doc == "jsonl":
+                C.read_jsonl_document(out)
+            if "--no-jlistwrap" in v.oflags and out.lstrip()[:1] == b"[":
+                raise C.CodecError("--no-jlistwrap output starts with '['")
+            if ("--no-jvstack" in v.oflags or (v.fmt == "jsonl" and "--jvstack" not in v.oflags)) and recs:
+                nl = out.count(b"\n")
+                wrap = 2 if v.single_doc == "json" else 0
+                if nl != len(recs) + wrap:
+                    raise C.CodecError("single-line layout: %d newlines for %d records" % (nl, len(recs)))
+        except C.CodecError as e:
+            add_violation(res, {"kind": "json-output", "format": v.fmt, "variant": v.name, "where": "text", "delta": "not-well-formed",
+                                "class": ""}, f"{v.name}: output is not a well-formed {v.single_doc or 'JSON'} document: {e}",
+                          dict(det, stdout=_short(out, 3000)))
+            return
+        diffs = []
+        if len(got) != len(expected):
+            diffs.append(("structure", "record-count", "", len(expected), len(got), []))
+        else:
+            for i, (e, g) in enumerate(zip(expected, got)):
+                jdiff(e, g, [i], diffs)
+        for where, d, cls, ex, go, path in diffs:
+            add_violation(res, {"kind": "json-roundtrip", "format": v.fmt, "variant": v.name, "where": where, "delta": d, "class": cls},
+                          f"{v.name}: JSON in (style {sname}) != JSON out at {path}: {where} {d} ({cls or '-'}) expected {ex!r} got {go!r}",
+                          dict(det, path=path, expected=ex, got=go, stdout=_short(out, 3000)))
+        if not diffs:
+            bump(res, "json_roundtrip_held")
+        r2 = R.mlr(argv, stdin=out)
+        res["evals"] += 1
+
+        def idem_fails(rs, r0):
+            w = R.mlr(argv, stdin=C.write_json(rs, st))
+            return w.ok and same_fail(R.mlr(argv, stdin=w.stdout), r0)
+        if failing(r2, "idem-fail", "JSON pass failed on Miller's own output", dict(det, stdin=out), idem_fails):
+            if r2.stdout != out and not diffs:
+                def idem_differs(rs):
+                    w = R.mlr(argv, stdin=C.write_json(rs, st))
+                    if not w.ok:
+                        return False
+                    w2 = R.mlr(argv, stdin=w.stdout)
+                    return w2.ok and w2.stdout != w.stdout
+                add_violation(res, {"kind": "idempotence", "format": v.fmt, "variant": v.name, "where": "text",
+                                    "delta": text_delta(out, r2.stdout), "class": shrunk(idem_differs)},
+                              f"{v.name}: mlr --json cat is not idempotent on its own output", dict(det, stdin=out, got=_short(r2.stdout, 3000)))
+            elif r2.stdout == out:
+                bump(res, "idempotence_held")
+        return
+
+    # ---- YAML: JSON -> YAML -> JSON, and YAML -> YAML
+    wargv = v.oflags + ["--ijson", "cat"]
+    rargv = batch + v.iflags + ["--ojson", "cat"]
+    bargv = batch + v.iflags + v.oflags + ["cat"]
+
+    def ywrite(rs):
+        return R.mlr(wargv, stdin=C.write_json(rs, st))
+
+    r = R.mlr(wargv, stdin=text)
+    res["evals"] += 1
+    det = {"variant": v.name, "argv": wargv, "stdin": text, "style": sname, "depth": depth}
+    if not failing(r, "write-fail", "YAML writer failed", det, lambda rs, r0: same_fail(ywrite(rs), r0)):
+        return
+    Y = r.stdout
+    r = R.mlr(rargv, stdin=Y)
+    res["evals"] += 1
+    det = {"variant": v.name, "argv": rargv, "stdin": Y, "written_by": wargv, "json": _short(text, 2000), "depth": depth}
+    if not failing(r, "read-fail", "YAML reader failed on Miller's own YAML", det,
+                   lambda rs, r0: (lambda w: w.ok and same_fail(R.mlr(rargv, stdin=w.stdout), r0))(ywrite(rs))):
+        return
+    try:
+        got = C.parse_json_records(r.stdout)
+    except C.CodecError as e:
+        add_violation(res, {"kind": "carrier", "format": v.fmt, "variant": v.name, "where": "json-output", "delta": "unparseable", "class": ""},
+                      f"{v.name}: --ojson output not strict JSON: {e}", det)
+        return
+    diffs = []
+    if len(got) != len(expected):
+        def count_differs(rs):
+            w = ywrite(rs)
+            if not w.ok:
+                return False
+            rr = R.mlr(rargv, stdin=w.stdout)
+            try:
+                return rr.ok and len(C.parse_json_records(rr.stdout)) != len(rs)
+            except C.CodecError:
+                return False
+        diffs.append(("structure", "record-count", shrunk(count_differs), len(expected), len(got), []))
+    else:
+        for i, (e, g) in enumerate(zip(expected, got)):
+            jdiff(e, g, [i], diffs)
+    for where, d, cls, ex, go, path in diffs:
+        add_violation(res, {"kind": "roundtrip", "format": v.fmt, "variant": v.name, "where": where, "delta": d, "class": cls},
+                      f"{v.name}: JSON -> YAML -> JSON differs at {path}: {where} {d} ({cls or '-'}) expected {ex!r} got {go!r}",
+                      dict(det, path=path, expected=ex, got=go))
+    if not diffs:
+        bump(res, "roundtrip_held")
+
+    def yidem(Yin, reordered):
+        """-> (status, text fed, text got, Result): the reader sorts keys (C01-F6, reported above as key-order), so when
+        the round trip showed a re-ordering the fixed point is looked for one pass later"""
+        r1 = R.mlr(bargv, stdin=Yin)
+        if r1.verdict == "slow" or not r1.ok:
+            return ("slow" if r1.verdict == "slow" else "fail"), Yin, None, r1
+        if r1.stdout == Yin:
+            return "ok", Yin, r1.stdout, r1
+        if not reordered:
+            return "mismatch", Yin, r1.stdout, r1
+        r2 = R.mlr(bargv, stdin=r1.stdout)
+        if r2.verdict == "slow" or not r2.ok:
+            return ("slow" if r2.verdict == "slow" else "fail"), r1.stdout, None, r2
+        return ("ok" if r2.stdout == r1.stdout else "mismatch"), r1.stdout, r2.stdout, r2
+
+    # differences that do not change what the YAML text Y itself says (the writer has already re-rendered the number /
+    # the reader will re-order) leave the idempotence law intact; any other difference would only be repeated here
+    benign = all(d[0] == "key-order" or (d[0] == "number" and d[1] == "token-changed-same-value") for d in diffs)
+    if not benign:
+        return
+    reordered = any(d[0] == "key-order" for d in diffs)
+    status, Yin, Yout, r1 = yidem(Y, reordered)
+    res["evals"] += 1
+    det = dict(det, argv=bargv, stdin=Yin)
+    if status == "slow":
+        res["inconc"] += 1
+    elif status == "fail":
+        failing(r1, "idem-fail", "YAML pass failed on Miller's own YAML", det,
+                lambda rs, r0: (lambda w: w.ok and (lambda x: x[0] == "fail" and same_fail(x[3], r0))(yidem(w.stdout, reordered)))(ywrite(rs)))
+    elif status == "ok":
+        bump(res, "idempotence_held")
+    else:
+        mz = re.sub(rb"(^|[\s\[,])-0(?=[\s\],]|$)", rb"\g<1>0", Yin) == Yout
+        c = shrunk(lambda rs: (lambda w: w.ok and yidem(w.stdout, reordered)[0] == "mismatch")(ywrite(rs)))
+        add_violation(res, {"kind": "idempotence", "format": v.fmt, "variant": v.name, "where": "text",
+                            "delta": "minus-zero->zero" if mz else "other", "class": c},
+                      f"{v.name}: mlr --yaml cat is not idempotent on its own output (needs leaves of class [{c}])",
+                      dict(det, got=_short(Yout, 3000)))
 
 
 def json_cases(chk):
@@ -713,7 +1140,14 @@ def json_cases(chk):
     for v in vs:
         for i in range(per):
             focus = STR_SPECIAL[(i * 5 + chk.seed) % len(STR_SPECIAL)] if i % 2 == 0 else None
-            cases.append({"variant": v.name, "seed": f"{chk.seed}/json/{v.name}/{i}", "focus": focus, "nstyles": 2 if q else 4})
+            case = {"variant": v.name, "seed": f"{chk.seed}/json/{v.name}/{i}", "focus": focus, "nstyles": 2 if q else 4}
+            if i % 4 == 3:
+                case["batch"] = ["--records-per-batch", str(1 + (i // 4) % 2)]
+            cases.append(case)
+        for i in range(2 if q else 12):
+            for big in ("long", "deep", "numbers"):
+                cases.append({"variant": v.name, "seed": f"{chk.seed}/jsonbig/{v.name}/{big}/{i}", "focus": None, "big": big,
+                              "nstyles": 1 if q else 3})
     return cases
 
 
